@@ -320,7 +320,13 @@ func c11History(srv *svc.Server, c *core.Collector, seed uint64, hid int, base i
 					}
 				}()
 				cn.joinCall = svc.Stamp()
-				t.Write(t.Frame(0x0002, cn.firstSerial, nil))
+				if r.Chance(1, 5) {
+					// an unsupported message first: the connection joins with its first HANDLED message
+					t.Write(t.Frame(0x0900, cn.firstSerial, []byte{1, 2, 3}))
+					t.Write(t.Frame(0x0002, 20000, nil))
+				} else {
+					t.Write(t.Frame(0x0002, cn.firstSerial, nil))
+				}
 				// stay a while, sending a few more heartbeats (the owner must keep being served)
 				for k := 0; k < r.Intn(3); k++ {
 					time.Sleep(time.Duration(r.Intn(1200)) * time.Microsecond)
@@ -328,9 +334,16 @@ func c11History(srv *svc.Server, c *core.Collector, seed uint64, hid int, base i
 				}
 				time.Sleep(time.Duration(r.Intn(2500)) * time.Microsecond)
 				cn.leaveCall = svc.Stamp()
-				if r.Bool() {
+				switch r.Intn(5) {
+				case 0, 1:
 					t.Reset()
-				} else {
+				case 2: // the server ends the connection itself: a frame with a wrong checksum (parse error path)
+					f := t.Frame(0x0002, 30100, nil)
+					f[len(f)-2] ^= 0x55
+					t.Write(f)
+					t.WaitClosed(2 * time.Second)
+					t.Close()
+				default:
 					t.Close()
 				}
 				<-done
@@ -416,8 +429,26 @@ func c11History(srv *svc.Server, c *core.Collector, seed uint64, hid int, base i
 				leaves = append(leaves, e)
 			}
 		}
+		if len(joins) == 0 {
+			handled := 0
+			for _, e := range rl {
+				if e.Kind == "read" {
+					handled++
+				}
+			}
+			if handled == 0 {
+				// only unsupported messages were read before the connection ended: it never joined, no registry effect;
+				// its leave callback, if any, must not announce a key
+				for _, e := range leaves {
+					if e.Key != "" {
+						bad("callback|a connection that never joined announced a key to the leave callback", fmt.Sprintf("conn %d key %q", cn.id, e.Key))
+					}
+				}
+				continue
+			}
+		}
 		if len(joins) != 1 {
-			bad("callback|join callback count != 1 for a connection that sent a message", fmt.Sprintf("conn %d key %s: %d join callbacks", cn.id, cn.key, len(joins)))
+			bad("callback|join callback count != 1 for a connection whose message was handled", fmt.Sprintf("conn %d key %s: %d join callbacks", cn.id, cn.key, len(joins)))
 			continue
 		}
 		j := joins[0]
